@@ -20,7 +20,7 @@ from vmc.ref import raire as R
 NAMES = ["1", "12", "1 2", "21", "121", "3", "31"]  # overlapping identifiers; "1 2" has a blank inside (it becomes "12" if blanks are dropped)
 LETTERS = "ABCDEFG"
 CON = "con1"
-FUNCS = {"bp": bp_estimate, "cp": cp_estimate}
+FUNCS = {"bp": bp_estimate, "cp": cp_estimate, "neg": (lambda winner, loser, other, total: -(winner - loser))}
 
 
 def build_inputs(n, profile_idx, winner, hint=None, reverse=False):
@@ -142,6 +142,9 @@ def families(tier):
         n4 = list(range(len(R.rankings(4))))  # every partial ranking of 4 candidates (blank included)
         fam = {"n4-3types": (4, n4, 3, (1, 2)), "n5-hard20": (5, _idx(5, HARD5), 5, (2, 3))}
         fam["n4-4types-short"] = (4, [i for i, r in enumerate(R.rankings(4)) if 1 <= len(r) <= 2], 4, (1, 2, 3))
+    # three candidates, tens of ballots per type: margins beyond 10 (a search bound initialised to a small constant would bite)
+    r3_ = R.rankings(3)
+    fam["n3-tens"] = (3, [i for i, r in enumerate(r3_) if len(r) >= 1], 3, (7, 39, 51))
     # thousands of single-choice ballots per candidate plus a few ballots that rank two or three: assertions for the same
     # branch whose margins differ by one or two votes in a few thousand (difficulties within 0.1% of each other)
     r3 = R.rankings(3)
